@@ -560,6 +560,9 @@ def enumerate_faults(s: SeedDoc, rich: bool = False) -> List[Dict[str, Any]]:
                         faults.append(dict(base, kind="inline", how="remove", seg=si, tok=ti, alt=0))
         if isinstance(v, Stream):
             ln = len(v.data)
+            if "Filter" not in v.d and "F" not in v.d:
+                # numbers INSIDE a content stream: everything that follows is scaled to astronomic coordinates
+                faults.append(dict(base, kind="payload", how="hugecm", pos=0, n=ln))
             faults.append(dict(base, kind="payload", how="empty", pos=0, n=ln))
             for pos in range(ln):
                 faults.append(dict(base, kind="payload", how="truncate", pos=pos, n=ln))
@@ -584,6 +587,9 @@ JUNK = bytes((i * 37 + 11) & 255 for i in range(16))
 
 def damage_payload(data: bytes, how: str, pos: int) -> bytes:
     pos = min(pos, max(len(data) - 1, 0))
+    if how == "hugecm":
+        big = b"1" + b"0" * 30
+        return big + b" 0 0 " + big + b" 0 0 cm " + data
     if how == "empty":
         return b""
     if how == "truncate":
